@@ -40,6 +40,10 @@ def profiles_for(pid, tier):
         for pol in ("woe", "woi"):
             edge.append(profile(f"{pol}-clear", pol, keys=[1, 2], hash={1: 5, 2: 6}, keyloc={1: "default", 2: "default"},
                                 ops=["ins", "ins_nt", "evict_all_nt", "clear", "get", "close"], max_steps=d + 1, max_ins=3))
+        # an insert / remove of the key lands while the disk read of a lookup of it is still in flight
+        for pol in ("woe", "woi"):
+            edge.append(profile(f"{pol}-read-in-flight", pol, keys=[1, 2], hash={1: 5, 2: 6}, keyloc={1: "default", 2: "default"},
+                                ops=["ins", "rem", "get", "evict_all", "get_start"], max_steps=d + 1, max_ins=3))
         edge.append(profile("woe-nolog", "woe", tomblog=False, max_steps=d - 1, ops=["ins", "get", "evict_all", "hold", "gate", "close"]))
         # narrow alphabet, deep: one key (and a colliding one) through queue / flush / index windows
         for pol in ("woe", "woi"):
@@ -157,6 +161,7 @@ def gen_random(p, rng, num, length):
         ops = [{"a": "init"}]
         hold = gate = False
         active = True
+        pending_read = False
         nins = 0
         for _ in range(length):
             if not active:
@@ -167,6 +172,18 @@ def gen_random(p, rng, num, length):
                 break
             a = rng.choice(p["ops"] + ["ins", "get", "get"])
             k = rng.choice(p["keys"])
+            if pending_read:
+                # the device holds reads: only operations that need no disk read, or the end of the window
+                if a not in ("ins", "rem", "evict_all", "get_start"):
+                    continue
+                if a == "get_start":
+                    ops.append({"a": "get_finish"})
+                    pending_read = False
+                    continue
+            elif a == "get_start":
+                ops.append({"a": "get_start", "k": k})
+                pending_read = True
+                continue
             if a == "ins_big" and a in p["ops"]:
                 if p["keyloc"][k] == "default":
                     nins += 1
@@ -211,6 +228,8 @@ def gen_random(p, rng, num, length):
                     continue
                 ops.append({"a": "close"})
                 active = False
+        if pending_read:
+            ops.append({"a": "get_finish"})
         if hold:
             ops.append({"a": "unhold"})
         if gate:
